@@ -193,3 +193,83 @@ fn c13_demobilize_at_most_one_final_command() {
         assert!(cmd.is_finite() && cmd.abs() <= config.max_freq_offset);
     }
 }
+
+
+// ---- measurement: when may the servo be armed (C13 "none thereafter" / C08 "only the slave port adjusts the clock")
+static mut STEER_CALLS: u32 = 0;
+static mut STEER_SAW_FREQ_CALLS: u32 = 0;
+impl KalmanFilter {
+    /// recording stand-in for steer (its own contract: c13_step_only_at_or_above_threshold)
+    fn verif_rec_steer<C: crate::Clock>(&mut self, _clock: &mut C) -> crate::filters::FilterUpdate {
+        unsafe { STEER_CALLS += 1; }
+        crate::filters::FilterUpdate::default()
+    }
+}
+fn noop_update_wander(_f: &mut KalmanFilter, _m: Measurement) {}
+fn noop_progress_filtertime(_f: &mut BaseFilter, _time: Time, _wander: f64, _config: &KalmanConfiguration) {}
+fn noop_absorb_sync(_f: &mut BaseFilter, _o: f64, _v: f64, _config: &KalmanConfiguration) {}
+fn noop_absorb_peer(_f: &mut BaseFilter, _o: f64, _v: f64) {}
+fn noop_estimator_absorb(_e: &mut MeasurementErrorEstimator, _m: Measurement, _f: f64, _config: &KalmanConfiguration) {}
+fn one_measurement_variance(_e: &MeasurementErrorEstimator, _config: &KalmanConfiguration) -> f64 { 1.0 }
+
+/// KalmanFilter::measurement arms the frequency control (ensure_freq_init: set_frequency(0.0), cur_frequency :=
+/// Some(0)) only for a measurement that carries a sync or delay offset -- i.e. one that only a SLAVE port produces.
+/// A measurement carrying only a peer delay (which a P2P port produces in every state) makes no clock call of its
+/// own and leaves the control un-armed, so that steer/update/demobilize (c13_change_frequency_*: no command while
+/// cur_frequency is None) stay silent on a port that is not slave. The estimator updates are stubbed out (float
+/// matrix algebra; they have no access to the clock), steer is replaced by a recording stub.
+#[kani::proof]
+#[kani::stub(KalmanFilter::steer, KalmanFilter::verif_rec_steer)]
+#[kani::stub(KalmanFilter::update_wander, noop_update_wander)]
+#[kani::stub(BaseFilter::progress_filtertime, noop_progress_filtertime)]
+#[kani::stub(BaseFilter::absorb_sync_offset, noop_absorb_sync)]
+#[kani::stub(BaseFilter::absorb_delay_offset, noop_absorb_sync)]
+#[kani::stub(BaseFilter::absorb_peer_delay, noop_absorb_peer)]
+#[kani::stub(MeasurementErrorEstimator::absorb_measurement, noop_estimator_absorb)]
+#[kani::stub(MeasurementErrorEstimator::measurement_variance, one_measurement_variance)]
+#[kani::stub(Duration::seconds, stub_seconds)]
+fn c13_measurement_arms_control_only_with_an_offset() {
+    let config = any_config();
+    let cur = any_finite();
+    kani::assume(cur.abs() <= config.max_freq_offset);
+    let has_cur: bool = kani::any();
+    let mut f = filter_with(config, 0.0, 0.0, 0.0, 1e-6, if has_cur { Some(cur) } else { None });
+    if kani::any() { f.running_filter = BaseFilter(None); f.wander_filter = BaseFilter(None); }
+    let some_dur = |on: bool| if on { Some(crate::port::verif_kani::common::any_duration()) } else { None };
+    let (has_sync, has_delay, has_peer): (bool, bool, bool) = (kani::any(), kani::any(), kani::any());
+    let m = Measurement {
+        event_time: any_time(),
+        offset: some_dur(kani::any()),
+        delay: some_dur(kani::any()),
+        peer_delay: some_dur(has_peer),
+        raw_sync_offset: some_dur(has_sync),
+        raw_delay_offset: some_dur(has_delay),
+    };
+    let in_order = f.running_filter.after_filter_time(m.event_time);
+    let mut clock = RecClock::new();
+    unsafe { STEER_CALLS = 0; }
+
+    let _ = f.measurement(m, &mut clock);
+
+    assert!(clock.n_step == 0 && clock.n_props == 0);
+    if !in_order {
+        // a measurement older than the filter time is dropped entirely
+        assert!(!clock.touched() && unsafe { STEER_CALLS } == 0);
+        assert!(f.cur_frequency.map(f64::to_bits) == if has_cur { Some(cur.to_bits()) } else { None });
+    } else {
+        assert!(unsafe { STEER_CALLS } == 1);
+        if has_cur || !(has_sync || has_delay) {
+            // already armed, or nothing that only a slave port measures: no clock call, control state unchanged
+            assert!(clock.n_freq == 0);
+            assert!(f.cur_frequency.map(f64::to_bits) == if has_cur { Some(cur.to_bits()) } else { None });
+        } else {
+            // first offset measurement: frequency initialised to exactly 0 ppm (re-tried once per offset kind if
+            // the clock refuses), never anything else
+            assert!(clock.n_freq >= 1 && clock.n_freq <= 2);
+            assert!(clock.last_freq_bits == 0f64.to_bits());
+            assert!(f.cur_frequency.is_none() || f.cur_frequency.map(f64::to_bits) == Some(0f64.to_bits()));
+        }
+    }
+    kani::cover!(in_order && !has_cur && has_peer && !has_sync && !has_delay);
+    kani::cover!(in_order && !has_cur && has_sync && clock.n_freq == 2);
+}
